@@ -531,7 +531,7 @@ class ConfigGen:
             return {"k": "Imply", "ch": [cond, cons], "id": self.fresh(force_id)}
         return self.simple(force_id)
     def config(self, nrules=None, cid="auto"):
-        n = nrules or self.rng.randint(1, 4)
+        n = nrules if nrules is not None else self.rng.choice([0, 1, 1, 2, 2, 3, 4])
         rules = [self.rule() for _ in range(n)]
         return {"k": "Stingy", "ch": rules, "id": (self.rng.choice(["cfg", None]) if cid == "auto" else cid)}
 
